@@ -28,6 +28,24 @@ func deepCopyValues(v interface{}) interface{} {
 	return cp.Interface()
 }
 
+// valuesBitsEqual compares two value slices element by element; floating-point
+// values by bit pattern (NaN != NaN for reflect.DeepEqual).
+func valuesBitsEqual(a, b interface{}) bool {
+	if a == nil || b == nil {
+		return a == nil && b == nil
+	}
+	ra, rb := reflect.ValueOf(a), reflect.ValueOf(b)
+	if ra.Len() != rb.Len() {
+		return false
+	}
+	for i := 0; i < ra.Len(); i++ {
+		if !valEq(ra.Index(i).Interface(), rb.Index(i).Interface()) {
+			return false
+		}
+	}
+	return true
+}
+
 func scribble(b []byte, pattern int) {
 	switch pattern % 3 {
 	case 0:
@@ -99,7 +117,7 @@ func checkC20(c *Case, s *Stats) error {
 	if !reflect.DeepEqual(keys, keysBefore) {
 		return viol("keys-modified", "NewSlimTrie modified the caller's key slice")
 	}
-	if !reflect.DeepEqual(vals, valsBefore) {
+	if !valuesBitsEqual(vals, valsBefore) {
 		return viol("values-modified", "NewSlimTrie modified the caller's value slice")
 	}
 	after := [4]*bool{opt.DedupValue, opt.InnerPrefix, opt.LeafPrefix, opt.Complete}
